@@ -214,6 +214,7 @@ class Item:
         self.src_range = None
         self.sha256 = None
         self.changed = False        # real text differs from stored copy
+        self.displaced = 0          # in-body inserted blocks whose neighbouring real lines changed
         self.rules = []
         self.keep_vis = False
         self.named_rules = []
@@ -609,6 +610,31 @@ class Unit:
                     continue
                 renames[x] = y
         it.renames = dict(renames)
+        # proof steps whose surroundings changed: an inserted block inside the body (not the contract header) is *displaced* when the
+        # real line it follows or the real line it precedes is not carried over unchanged and adjacent — the hint may now sit at the wrong
+        # program point (before instead of after the statement it talks about), so a failing obligation may be a lost hint, not a defect
+        it.displaced = 0
+        if it.changed:
+            eq = set()
+            for tag, i1, i2, j1, j2 in sm.get_opcodes():
+                if tag == 'equal':
+                    eq.update(range(i1, i2))
+            in_body = False
+            ordinal = -1
+            s2o = {i: k for k, (i, _) in enumerate(stored_real)}
+            for i, st in enumerate(it.stored):
+                if not st[1]:
+                    if i in s2o:
+                        ordinal = s2o[i]
+                    if st[0].strip() == '{' and not in_body:
+                        in_body = True
+                    continue
+                if not in_body:
+                    continue
+                before_ok = ordinal < 0 or ordinal in eq
+                after_ok = ordinal + 1 >= len(a) or ((ordinal + 1) in eq and (ordinal < 0 or amap.get(ordinal + 1) == amap.get(ordinal, -1) + 1))
+                if not (before_ok and after_ok):
+                    it.displaced += 1
         # insertion blocks keyed by the new real ordinal they follow
         after = {}
         ordinal = -1
